@@ -117,6 +117,15 @@ func NewUWrapStack(cause error, msg string) *UWrapStack {
 	return &UWrapStack{Msg: msg, Cause: cause, St: pkgerrors.New("").(tracer).StackTrace()}
 }
 
+// UZeroA and UZeroB are distinct error types without any state (sentinel
+// types): pointers to values of different zero-size types may compare equal
+// as addresses although they are different errors.
+type UZeroA struct{}
+type UZeroB struct{}
+
+func (*UZeroA) Error() string { return "TKUzeroAQ" }
+func (*UZeroB) Error() string { return "TKUzeroBQ" }
+
 // UFmtArg is an application value type that knows how to print itself
 // safely: its first part is safe, its second part is not.
 type UFmtArg struct{ SafePart, UnsafePart string }
